@@ -219,6 +219,12 @@ func body(s *simrt.Sim, tier string) {
 				h.faultStep, h.faultKind = 1+s.Choose(12, "faultStep2"), s.Choose(4, "faultKind2")
 			}
 		}
+		existed := map[string]bool{}
+		if ents, e := os.ReadDir(filepath.Join(root, "base")); e == nil {
+			for _, e := range ents {
+				existed[e.Name()] = true
+			}
+		}
 		simos.SetHook(h)
 		var err error
 		crashed := false
@@ -248,7 +254,7 @@ func body(s *simrt.Sim, tier string) {
 			live, _ := os.Readlink(target)
 			ents, _ := os.ReadDir(filepath.Join(root, "base"))
 			for _, e := range ents {
-				if e.IsDir() && e.Name() != filepath.Base(live) {
+				if e.IsDir() && e.Name() != filepath.Base(live) && !existed[e.Name()] {
 					s.Fail("failed-write-left-version-dir", fmt.Sprintf("Write #%d returned an error (%s) and left its unpublished version directory %s behind\n%s", i, errText, e.Name(), strings.Join(log, "\n")))
 				}
 			}
@@ -256,9 +262,10 @@ func body(s *simrt.Sim, tier string) {
 		if h.fired != "" {
 			anyFault = true
 			faultsLeft--
-			if crashed || current == pending {
-				// a crash, or an error that struck after this Write had published its version (i.e. in the
-				// clean-up of the old one): what remains on disk afterwards is not judged
+			if crashed {
+				// what a crash leaves on disk (unpublished or superseded version directories) is not judged. An error that
+				// struck after this Write had published its version - in the clean-up of the old one - is no crash: if the
+				// caller carries on with the same Dir, the versions it has superseded are gone after its next successful Write
 				anyCrash = true
 			}
 			// after a crash only the disk survives; after a mere error return the caller may equally
